@@ -329,6 +329,11 @@ func c16DotOK(k string) bool {
 
 func (c16) Exec(seed int64, i int, tier string) Record {
 	r := CaseRng(seed, "C16", i)
+	if i%20 == 9 {
+		// classes overlap-probe / history-fault-probe (b16_probes.go): `..k` and `@.k` in the three spellings while another
+		// evaluation of the same parsed function overlaps / after a user function panicked at its K-th call
+		return b16C16(r, i/20)
+	}
 	k, classes := c16GenKey(r)
 	sibs := c16Siblings(r, k)
 	obj := map[string]interface{}{k: float64(1)}
